@@ -1,4 +1,30 @@
+use vh_ls::*;
 fn main() {
-    emmylua_ls::verif::install(true, false);
-    println!("events={}", emmylua_ls::verif::event_count());
+    capture_panics();
+    let root = std::path::PathBuf::from(std::env::args().nth(1).expect("root dir"));
+    std::fs::create_dir_all(&root).unwrap();
+    run(async move {
+        let mut s = Session::start(SessionOpts { root: Some(root.clone()), scheduled: true, ..Default::default() }).await;
+        let u = uri_of(&root.join("a.lua"));
+        let (m, p) = did_open(&u, "local t1 = 1", 1);
+        s.notify(&m, p).await;
+        println!("after open: parked={:?} new={:?} main={}", s.parked(), s.new_tasks(), s.main_task);
+        let (m, p) = did_change(&u, "local t2 = 2", 2);
+        s.notify(&m, p).await;
+        println!("after change: parked={:?} new={:?} idle={}", s.parked(), s.new_tasks(), s.main_idle());
+        // run the inline change (main task) to completion first
+        let main = s.main_task;
+        let mut n = 0;
+        while s.parked().contains_key(&main) && n < 20 { assert!(s.grantable(main)); s.step(main).await; n += 1; }
+        println!("change done: idle={} vfs={:?} wm={:?}", s.main_idle(), s.vfs_text(&u), s.wm_state());
+        // now the open task
+        let others: Vec<u64> = s.parked().keys().cloned().collect();
+        for t in others { let mut k = 0; while s.parked().contains_key(&t) && k < 20 { s.step(t).await; k += 1; } }
+        println!("open done: vfs={:?} wm={:?} parked={:?}", s.vfs_text(&u), s.wm_state(), s.parked());
+        s.advance_ms(1000).await;
+        println!("after tick parked={:?}", s.parked());
+        s.free_run().await;
+        s.advance_ms(1000).await;
+        println!("published={:?} panics={:?}", s.published(0), take_panics());
+    });
 }
